@@ -153,3 +153,8 @@ package cache
 //@   stable all(RepoCacheIdentity.SubCache)
 //@   requires [not-held] c.SubCache != nil && sync.rwheld[&c.SubCache.mu] == 0
 //@   ensures [lock-balanced] forall m *sync.RWMutex :: { sync.rwheld[m] } sync.rwheld[m] == old(sync.rwheld[m])
+
+//@ func (*SubCache).allIds
+//@   props C18
+//@   modifies nothing
+//@   opt trusted_frame
